@@ -226,7 +226,7 @@ func runPipeDrop(seed int64, kind, sched string, committers, txns, rounds int, s
 			runCommitters(committers, txns, 0)
 			time.Sleep(time.Duration(rng.Intn(8000)) * time.Microsecond)
 			go doDrop()
-			if !pdWait(dropDone, 60*time.Second) {
+			if !pdWait(dropDone, 20*time.Second) {
 				hung = true
 			}
 		case "queued":
@@ -238,7 +238,7 @@ func runPipeDrop(seed int64, kind, sched string, committers, txns, rounds int, s
 			go doDrop()
 			time.Sleep(time.Duration(1+rng.Intn(10)) * time.Millisecond)
 			release()
-			if !pdWait(dropDone, 60*time.Second) {
+			if !pdWait(dropDone, 20*time.Second) {
 				hung = true
 			}
 		case "window":
@@ -266,7 +266,7 @@ func runPipeDrop(seed int64, kind, sched string, committers, txns, rounds int, s
 			}
 			st.Hist["pdrop:window-rejected"] += inWindow
 			release()
-			if !pdWait(dropDone, 60*time.Second) {
+			if !pdWait(dropDone, 20*time.Second) {
 				hung = true
 			}
 		case "late":
@@ -304,7 +304,15 @@ func runPipeDrop(seed int64, kind, sched string, committers, txns, rounds int, s
 			}
 		}
 		if hung {
-			fails.add("[C29-concurrent-drop-hang]", fmt.Sprintf("the drop did not return within 60 s (schedule %s, writeCh length %d)", sched, badger.VerifWriteChLen(db)))
+			if n := badger.VerifWriteChLen(db); n > 0 && kind == "prefix" {
+				// the signature of F38b, reached without any schedule hook: requests sit in writeCh,
+				// nobody serves it, DropPrefix waits in its View for their commit timestamps
+				fails.add("[C29-concurrent-late-sender-hang]", fmt.Sprintf(
+					"DropPrefix did not return within 20 s in a free-running session (schedule %s, no hook involved): %d request(s) sit in writeCh, sent after prepareToDrop drained it by committers that had passed the blockWrites check before; the drop's View waits for their commit timestamps", sched, n))
+				st.Inc("pdrop:natural-late-hang")
+			} else {
+				fails.add("[C29-concurrent-drop-hang]", fmt.Sprintf("the drop did not return within 20 s (schedule %s, %s, writeCh length %d)", sched, kind, badger.VerifWriteChLen(db)))
+			}
 			abandoned = true
 			return "hang", fails.msgs
 		}
